@@ -300,6 +300,12 @@ func (d *lmtpDelivery) BodyNonAtomic(ctx context.Context, sc module.StatusCollec
 
 	rcptIndx := 0
 	err = d.conn.LMTPData(ctx, header, r, func(rcpt string, err *smtp.SMTPError) {
+		// Statuses are reported in the same order as RCPT TO commands were
+		// sent. Use the address as it was passed to AddRcpt, the one
+		// reported by client may be converted to the ASCII form.
+		if rcptIndx < len(d.rcpts) {
+			rcpt = d.rcpts[rcptIndx]
+		}
 		if err == nil {
 			sc.SetStatus(rcpt, nil)
 		} else {
